@@ -14,6 +14,7 @@ var commands = map[string]func([]string){
 	"c07":     cmdC07,
 	"cfgs":    cmdCfgs,
 	"c14gen":  cmdC14Gen,
+	"c19":     cmdC19,
 	"c14rand": cmdC14Rand,
 	"c07stress": cmdC07Stress,
 }
